@@ -519,6 +519,8 @@ def classify_crash(stderr):
             return msg
         if l.startswith("verifharness/") or l.startswith("main."):
             return None
+        if l.startswith("goroutine ") and "[running]" not in l:
+            return None       # next goroutine's stack: the panicking one had no hive.go frame
     return None
 
 
